@@ -28,11 +28,16 @@ import (
 // ---------------------------------------------------------------- rogue server
 
 type action struct {
-	Kind       string // "eof" | "reset" | "reply"
+	Kind       string // "eof" | "reset" | "reply" | "park"
 	Reply      []byte
 	CloseAfter int // < 0: send everything
 	Slow       bool
 	Tag        int // >= 0: index of a well-formed, validly signed reply (told-tracking)
+	// park: hold the connection open (the client has no read deadline) until Release
+	// is closed, then fail it with Then ("eof" | "reset")
+	Parked  func()
+	Release chan struct{}
+	Then    string
 }
 
 type rogue struct {
@@ -124,6 +129,17 @@ func (r *rogue) handle(c *net.TCPConn) {
 	a := action{Kind: "eof"}
 	if bf != nil {
 		a = bf(n)
+	}
+	if a.Kind == "park" {
+		c.SetDeadline(time.Now().Add(60 * time.Second))
+		if a.Parked != nil {
+			a.Parked()
+		}
+		select {
+		case <-a.Release:
+		case <-time.After(45 * time.Second):
+		}
+		a.Kind = a.Then
 	}
 	if a.Kind == "eof" {
 		return
